@@ -26,7 +26,7 @@ from __future__ import annotations
 import ast
 
 from ..repo import AnalysisError, own_nodes
-from .common import DISPATCHER, OBSERVER, is_empty_list, is_notify, resolve_root
+from .common import DISPATCHER, OBSERVER, is_empty_list, is_notify, only_called_from, path_atoms, resolve_root
 from .c09 import state_write
 
 MANIFEST = {
@@ -148,8 +148,9 @@ def run(ctx):
     sites = _notify_sites(ctx, "update")
     chk.analysed["update_call_sites_on_observers"] = [f"{fi.qualname}@{ev.loc}" for fi, ev in sites]
     loops = {}
+    dispatch = repo.need_method(disp, "dispatch")
     for fi, ev in sites:
-        if fi.cls is None or disp.qualname not in fi.cls.mro:
+        if fi.cls is None or disp.qualname not in fi.cls.mro or not only_called_from(ctx, fi, {dispatch}):
             chk.violation(
                 "R10.a", fi, ev.node,
                 "an observer is updated from outside Dispatcher: it receives notifications that are "
@@ -160,7 +161,6 @@ def run(ctx):
         lp = _check_loop(ctx, "R10.a", fi, ev, "update notification")
         if lp is not None:
             loops[id(lp)] = (fi, lp, ev)
-    dispatch = repo.need_method(disp, "dispatch")
     paths = eng.paths(dispatch, disp)
     n_ok = 0
     if not loops:
@@ -224,7 +224,7 @@ def run(ctx):
     rloops = {}
     reset = repo.need_method(disp, "reset")
     for fi, ev in rsites:
-        if fi is not reset:
+        if fi is not reset and not (fi.cls is not None and disp.qualname in fi.cls.mro and only_called_from(ctx, fi, {reset})):
             chk.violation("R10.b", fi, ev.node, "an observer is reset from outside Dispatcher.reset", loc=ev.loc)
             continue
         lp = _check_loop(ctx, "R10.b", fi, ev, "reset notification")
@@ -486,55 +486,69 @@ def _create_or_get(ctx, disp):
     if len(ps) < 3:
         raise AnalysisError("create_or_get_observer signature changed")
     typ, cond = ps[1], ps[2]
-    loops = [n for n in fi.node.body if isinstance(n, ast.For)]
-    ok_loop = False
-    for lp in loops:
-        if not _direct_subscribers_iter(lp.iter) or not isinstance(lp.target, ast.Name):
-            continue
-        v = lp.target.id
-        for n in ast.walk(lp):
-            if isinstance(n, ast.If):
-                t = ast.unparse(n.test)
-                has_isinst = any(
-                    isinstance(x, ast.Call) and isinstance(x.func, ast.Name) and x.func.id == "isinstance"
-                    and len(x.args) == 2 and isinstance(x.args[0], ast.Name) and x.args[0].id == v
-                    and isinstance(x.args[1], ast.Name) and x.args[1].id == typ
-                    for x in ast.walk(n.test)
+    F = ctx.norm.flat(fi)
+    loops = [n for n in own_nodes(F.node) if isinstance(n, ast.For) and _direct_subscribers_iter(n.iter) and isinstance(n.target, ast.Name)]
+    if not loops:
+        comp = [n for n in own_nodes(F.node) if isinstance(n, (ast.GeneratorExp, ast.ListComp)) and _direct_subscribers_iter(n.generators[0].iter)]
+        if comp:
+            # next(o for o in subscribers if ...) style: judge the filter
+            g = comp[0].generators[0]
+            v = g.target.id if isinstance(g.target, ast.Name) else None
+            atoms = {}
+            from .common import decompose
+
+            for c in g.ifs:
+                for a, val in decompose(c, True, lambda n: ast.unparse(n)):
+                    atoms[a] = val
+            if atoms.get(f"isinstance({v}, {typ})") and atoms.get(f"{cond}({v})"):
+                chk.ok("R10.e", fi.qualname, fi.loc(), "first match (generator) else construct")
+            else:
+                chk.violation(
+                    "R10.e", fi, comp[0],
+                    "the subscriber looked up is filtered by less than `isinstance(observer type) and condition`: the "
+                    "first subscriber of the type is taken even when it does not satisfy the caller's condition (a new "
+                    "observer is then created although a matching one is subscribed)",
+                    loc=fi.loc(comp[0]),
                 )
-                has_cond = any(
-                    isinstance(x, ast.Call) and isinstance(x.func, ast.Name) and x.func.id == cond
-                    and x.args and isinstance(x.args[0], ast.Name) and x.args[0].id == v
-                    for x in ast.walk(n.test)
-                )
-                conj = not any(isinstance(x, ast.BoolOp) and isinstance(x.op, ast.Or) for x in ast.walk(n.test)) and not any(
-                    isinstance(x, ast.UnaryOp) and isinstance(x.op, ast.Not) for x in ast.walk(n.test))
-                rets = [x for x in n.body if isinstance(x, ast.Return) and isinstance(x.value, ast.Name) and x.value.id == v]
-                if has_isinst and has_cond and conj and rets:
-                    ok_loop = True
-                elif rets:
-                    chk.violation(
-                        "R10.e", fi, n.test,
-                        "an existing subscriber is returned without testing both isinstance(observer type) "
-                        "and the caller's condition",
-                        loc=fi.loc(n),
-                    )
-                    return
-    if not ok_loop:
+            return
         chk.violation("R10.e", fi, None, "no loop over self.subscribers returning the first matching observer: an already subscribed observer is not reused")
         return
-    # fallthrough: construct observer(self, **kwargs) and return it
-    kw = fi.node.args.kwarg.arg if fi.node.args.kwarg else None
-    built = None
-    for n in own_nodes(fi.node):
-        if isinstance(n, ast.Call) and isinstance(n.func, ast.Name) and n.func.id == typ:
-            built = n
-    if built is None:
+    eng = ctx.engine(relevant=lambda e: False, max_depth=0, unroll=1)
+    n_ret = 0
+    built_ok = False
+    for p in eng.paths(F, disp):
+        if p.outcome != "return":
+            continue
+        rv = p.events[-1].data.get("value")
+        rv = ctx.norm.xexpr(F, rv) if rv is not None else None
+        lv = next((lp.target.id for lp in loops if isinstance(rv, ast.Name) and rv.id == lp.target.id), None)
+        if lv is not None:
+            n_ret += 1
+            atoms = path_atoms(ctx, p.events)
+            a1 = atoms.get(f"isinstance({lv}, {typ})")
+            a2 = atoms.get(f"{cond}({lv})")
+            if not (a1 is True and a2 is True):
+                chk.violation(
+                    "R10.e", fi, p.events[-1].node,
+                    "an existing subscriber is returned without testing both isinstance(observer type) "
+                    "and the caller's condition",
+                    loc=p.events[-1].loc, path=p.describe(),
+                )
+                return
+        elif isinstance(rv, ast.Call) and isinstance(rv.func, ast.Name) and rv.func.id == typ:
+            kw = fi.node.args.kwarg.arg if fi.node.args.kwarg else None
+            first_self = (rv.args and isinstance(rv.args[0], ast.Name) and rv.args[0].id == ps[0]) or any(
+                k.arg == "dispatcher" and isinstance(k.value, ast.Name) and k.value.id == ps[0] for k in rv.keywords)
+            fwd = kw is None or any(k.arg is None and isinstance(k.value, ast.Name) and k.value.id == kw for k in rv.keywords)
+            if not first_self or not fwd:
+                chk.violation("R10.e", fi, rv, "the new observer is not constructed as observer(self, **kwargs)", loc=fi.loc())
+                return
+            built_ok = True
+        else:
+            raise AnalysisError(f"{fi.qualname}: return value `{ast.unparse(rv) if rv is not None else None}` not recognised")
+    if n_ret == 0:
+        chk.violation("R10.e", fi, None, "no path returns an already subscribed observer: a matching observer is not reused")
+    elif not built_ok:
         chk.violation("R10.e", fi, None, "no construction of the requested observer type when none matches")
-        return
-    first_self = built.args and isinstance(built.args[0], ast.Name) and built.args[0].id == ps[0] or any(
-        k.arg == "dispatcher" and isinstance(k.value, ast.Name) and k.value.id == ps[0] for k in built.keywords)
-    fwd = kw is None or any(k.arg is None and isinstance(k.value, ast.Name) and k.value.id == kw for k in built.keywords)
-    if not first_self or not fwd:
-        chk.violation("R10.e", fi, built, "the new observer is not constructed as observer(self, **kwargs)", loc=fi.loc(built))
-        return
-    chk.ok("R10.e", fi.qualname, fi.loc(), "first match else construct")
+    else:
+        chk.ok("R10.e", fi.qualname, fi.loc(), "first match else construct")
